@@ -162,3 +162,40 @@ func init() {
 			Old: "\t\t\tpotentialRemoteOwner.SetName(remote.Name)\n\t\t\tpotentialRemoteOwner.SetUID(remote.UID)\n", New: "\t\t\tpotentialRemoteOwner.SetUID(remote.UID)\n\t\t\tpotentialRemoteOwner.SetName(remote.Name)\n"},
 	)
 }
+
+// Round two: the merge of a RemotePhaseReference written with slices.IndexFunc (the reference is
+// captured by the predicate closure, so go/ssa keeps it in memory).
+func init() {
+	const remote = "internal/controllers/objectsets/remotephase_reconciler.go"
+	const imports = "\t\"encoding/json\"\n\t\"fmt\"\n\n\t\"github.com/go-logr/logr\"\n"
+	const importsSlices = "\t\"encoding/json\"\n\t\"fmt\"\n\t\"slices\"\n\n\t\"github.com/go-logr/logr\"\n"
+	const merge = "\tfor i := range refs {\n\t\tif refs[i].Name == ref.Name {\n\t\t\trefs[i] = ref\n\t\t\treturn refs\n\t\t}\n\t}\n\trefs = append(refs, ref)\n\treturn refs\n"
+	const indexFunc = "\tidx := slices.IndexFunc(refs, func(existing corev1alpha1.RemotePhaseReference) bool {\n\t\treturn existing.Name == ref.Name\n\t})\n"
+	addMutants(
+		Mutant{Prop: "C01", Name: "r7-benign-merge-through-indexfunc", File: remote, Benign: true,
+			Old: merge, New: indexFunc + "\tif idx < 0 {\n\t\treturn append(refs, ref)\n\t}\n\trefs[idx] = ref\n\treturn refs\n",
+			More: []Edit{{File: remote, Old: imports, New: importsSlices}}},
+		Mutant{Prop: "C01", Name: "r7-indexfunc-match-keeps-stale-entry", File: remote,
+			Why: "a same-name entry (stale UID of a re-created phase object) is kept instead of being overwritten",
+			Old: merge, New: indexFunc + "\tif idx >= 0 {\n\t\treturn refs\n\t}\n\treturn append(refs, ref)\n",
+			More:   []Edit{{File: remote, Old: imports, New: importsSlices}},
+			Expect: []string{"C01.R7@internal/controllers/objectsets.addRemoteObjectSetPhase#return"}},
+	)
+}
+
+// Round two: the previous-revision test answers "no" only after the whole list was examined.
+func init() {
+	const pr = "internal/controllers/phase_reconciler.go"
+	const loopEnd = "\t\t\tif c.ownerStrategy.IsController(potentialRemoteOwner, obj) {\n\t\t\t\treturn true\n\t\t\t}\n\t\t}\n\t}\n\treturn false\n}\n"
+	addMutants(
+		Mutant{Prop: "C01", Name: "r2-no-after-first-revision-with-remote-phases", File: pr,
+			Why:    "the search stops at the first previous revision that has delegated phases: adoption from a later declared previous revision is refused",
+			Old:    loopEnd,
+			New:    "\t\t\tif c.ownerStrategy.IsController(potentialRemoteOwner, obj) {\n\t\t\t\treturn true\n\t\t\t}\n\t\t}\n\t\treturn false\n\t}\n\treturn false\n}\n",
+			Expect: []string{"C01.R2@(*internal/controllers.defaultAdoptionChecker).isControlledByPreviousRevision#return-false"}},
+		Mutant{Prop: "C01", Name: "r2-benign-no-through-a-local", File: pr, Benign: true,
+			Why: "the final answer travels through a local; it is still given only after the loop ran to its end",
+			Old: loopEnd,
+			New: "\t\t\tif c.ownerStrategy.IsController(potentialRemoteOwner, obj) {\n\t\t\t\treturn true\n\t\t\t}\n\t\t}\n\t}\n\tcontrolled := false\n\treturn controlled\n}\n"},
+	)
+}
